@@ -6,7 +6,7 @@ import (
 
 func init() {
 	register(&propSpec{ID: "C10", Level: "other", Run: runC10,
-		Canary:  []CanaryExpect{{Rule: "MAPORDER", Bad: "canaryBadSkipAppend", Good: "canaryGoodMapLoop"}, {Rule: "KIND-STORE", Bad: "canaryBadStoreSwap", Good: "canaryGoodStore"}},
+		Canary:  []CanaryExpect{{Rule: "MAPORDER", Bad: "canaryBadSkipAppend", Good: "canaryGoodMapLoop"}, {Rule: "KIND-STORE", Bad: "canaryBadStoreSwap", Good: "canaryGoodStore"}, {Rule: "CHUNK", Bad: "canaryBadChunks", Good: "canaryGoodChunks"}},
 		Explain: otherNote + "C10: decided = parser, printer and FieldParams of ExtendedSpatialID agree position by position; the two notation conversions are the canonical permutations (layout inference), one output per input in order; the expansion targets max(h,v), raises only the coarser axis with C03's functions and copies the other axis; arity guards. Region equality / counts of the expansion are NOT decided."})
 	register(&propSpec{ID: "C11", Level: "other", Run: runC11,
 		Canary: []CanaryExpect{{Rule: "ELEMENTWISE", Bad: "canaryBadPrevCache", Good: "canaryGoodNoState"}, {Rule: "ELEMENTWISE", Bad: "canaryBadCarriedTile", Good: "canaryGoodNoState"}, {Rule: "CACHE-KEY", Bad: "canaryBadMemoKey", Good: "canaryGoodMemoKey"},
@@ -18,7 +18,7 @@ func init() {
 		Canary: []CanaryExpect{{Rule: "RANGEUSE", Bad: "canaryBadDropMax", Good: "canaryGoodBothBounds"},
 			{Rule: "ROUND", Bad: "canaryBadBitFill", Good: "canaryGoodBitFill"}}})
 	register(&propSpec{ID: "C13", Level: "other", Run: runC13,
-		Canary:  []CanaryExpect{{Rule: "KIND-STORE", Bad: "canaryBadStoreSwap", Good: "canaryGoodStore"}},
+		Canary:  []CanaryExpect{{Rule: "KIND-STORE", Bad: "canaryBadStoreSwap", Good: "canaryGoodStore"}, {Rule: "CHUNK", Bad: "canaryBadChunks", Good: "canaryGoodChunks"}},
 		Explain: otherNote + "C13: decided = hZoom/x/y copied field for field and vZoom is the request's (kinds at the setters); the emitted vertical range is exactly the range returned for that tile; error returns carry nil; results are the key set of one map; the spatial variant is the expansion composed with the extended variant; tile zooms validated on both sides."})
 }
 
@@ -30,6 +30,7 @@ func runC10(w *World, r *Report, tier string) {
 		"common/object.(ExtendedSpatialID).ID", "common/object.(*ExtendedSpatialID).FieldParams",
 		"transform.ConvertExtendedSpatialIDToSpatialIDs", "transform.GetVoxelIDfromSpatialID",
 		"transform.ConvertQuadkeysAndVerticalIDsToSpatialIDs", "transform.ConvertSpatialIDsToQuadkeysAndVerticalIDs")
+	ruleChunks(w, r, closureOf(w, entries))
 	own := map[*ssa.Function]bool{}
 	for _, f := range entries {
 		own[f] = true
@@ -69,6 +70,7 @@ func runC11(w *World, r *Report, tier string) {
 		"transform.ConvertExtendedSpatialIDsToQuadkeysAndVerticalIDs", "transform.ConvertSpatialIDsToQuadkeysAndVerticalIDs",
 		"transform.ConvertExtendedSpatialIDsToQuadkeysAndAltitudekeys"}
 	entries := entryFuncs(w, r, names...)
+	ruleChunks(w, r, closureOf(w, entries))
 	cl := closureOf(w, entries)
 	r.Analysed["closure_functions"] = len(cl)
 	own := map[*ssa.Function]bool{}
@@ -156,6 +158,7 @@ func runC13(w *World, r *Report, tier string) {
 	unresolvedSeeds(w, r)
 	entries := entryFuncs(w, r, "transform.ConvertTileXYZsToExtendedSpatialIDs", "transform.ConvertTileXYZsToSpatialIDs",
 		"common/object.NewTileXYZ", "common/object.(*TileXYZ).SetHZoom", "common/object.(*TileXYZ).SetVZoom")
+	ruleChunks(w, r, closureOf(w, entries))
 	cl := closureOf(w, entries)
 	own := map[*ssa.Function]bool{}
 	for f := range cl {
